@@ -51,7 +51,7 @@ Section Chain.
     end.
 
   Definition chain_counts (mix : ChainMix) (depth k : nat) : option (list stats) :=
-    match blr_layout_passes block_pre abs_child_block (depth + 4) (chain mix depth) [chain_avail k] with
+    match blr_layout_passes eqb block_pre abs_child_block (depth + 4) (chain mix depth) [chain_avail k] with
     | Some [(_, ns)] => Some ns
     | _ => None
     end.
